@@ -32,6 +32,8 @@ func checkC13(c *Ctx) {
 	c.lenOrdering()
 	lockBalance(c, func(cl string) bool { return strings.HasPrefix(cl, "sessions.Ackqueue.") }, "ack-queue")
 	c.queueMethodsLocked()
+	// a slot found under the lock is not used after the lock was released and taken again
+	c.staleAcrossSections(pkgSessions)
 	// answers computed once and kept are reset by every update of what they were computed from
 	c.memoisedViews()
 	// per-object buffers and lists do not start as views of package-level memory
